@@ -8,6 +8,7 @@ package c12
 
 import (
 	"strconv"
+	"strings"
 	"sync"
 	"time"
 
@@ -119,7 +120,59 @@ func runPull(line, appsS, pulledS string) core.Outcome {
 				What: "the pulled config was not started but GET /config/ gives " + jsonText(end.cfg) + " instead of the config that named the loader"})
 		}
 	}
-	o.Impl = strconv.Itoa(r.status) + "/" + end.cfgEnc + "/" + strconv.Itoa(loads) + "/" + end.saved
+	// ---- the id index is that of the document in place (indexConfigObjects runs for a pulled config too)
+	tags := map[string]bool{}
+	checkIDs(end, &o.Failures, tags)
+	if loads == 2 {
+		now := map[string]bool{}
+		idTexts(end.cfg, now)
+		old := map[string]bool{}
+		idTexts(init, old)
+		for _, id := range sortedKeys(boolMap(old)) {
+			if now[id] || id == "" || strings.Contains(id, "/") || id == "." || id == ".." {
+				continue
+			}
+			if g := get("/id/" + id); g.status != 404 {
+				o.Failures = append(o.Failures, core.Failure{Case: line, Class: "pulled-document-ids-not-indexed",
+					What: "the pulled document " + jsonText(end.cfg) + " has no \"@id\": \"" + id + "\" (the replaced document had) but GET /id/" + id +
+						" answers " + strconv.Itoa(g.status) + " " + string(g.body)})
+			}
+		}
+	}
+	for i := range o.Failures {
+		if o.Failures[i].Class == "id-does-not-resolve" && loads == 2 {
+			o.Failures[i].Class = "pulled-document-ids-not-indexed"
+		}
+	}
+	// ---- one write through /id/ after the pull: PATCH the first id of the document in place
+	follow := "noid"
+	var ids []string
+	{
+		set := map[string]bool{}
+		idTexts(end.cfg, set)
+		for _, id := range sortedKeys(boolMap(set)) {
+			if id != "" && !strings.Contains(id, "/") && id != "." && id != ".." {
+				ids = append(ids, id)
+			}
+		}
+	}
+	if len(ids) > 0 {
+		p := "/id/" + ids[0]
+		if ambiguousID(end.cfg, p) {
+			follow = "amb"
+		} else {
+			w := do("PATCH", p, []byte(`{"w":1}`), map[string]string{"Content-Type": "application/json"})
+			time.Sleep(15 * time.Millisecond)
+			get("/config/") // a patch that brings back the loader section would pull again: let it settle
+			after, _ := observe()
+			follow = showResp(w, &o.Failures, p) + "/" + after.cfgEnc
+			o.Tags = append(o.Tags, "pull:id-write")
+		}
+	}
+	for i := range o.Failures {
+		o.Failures[i].Case = line
+	}
+	o.Impl = strconv.Itoa(r.status) + "/" + end.cfgEnc + "/" + strconv.Itoa(loads) + "/" + end.saved + "/" + follow
 	return o
 }
 
@@ -127,6 +180,15 @@ func (g *gen) pullOps(n int, emit func(string)) {
 	for i := 0; i < n; i++ {
 		sub := g.value(2)
 		pulled := bodyOf(g.doc())
+		if g.rng.Chance(1, 2) {
+			// both documents carry @id tags, at DIFFERENT paths: "p1" moves, "o1" disappears, "q1" is new
+			sub = map[string]any{"a": map[string]any{"@id": "p1", "v": g.scalar()}, "b": []any{map[string]any{"@id": "o1"}}, "c": g.value(1)}
+			pulled = bodyOf(map[string]any{"apps": map[string]any{"c12": map[string]any{
+				"a": map[string]any{"v": g.scalar()}, "m": []any{g.scalar(), map[string]any{"@id": "p1", "k": g.value(1)}},
+				"n": map[string]any{"@id": "q1"}}}})
+			emit("pull " + bodyOf(sub) + " " + pulled)
+			continue
+		}
 		switch g.rng.Intn(8) {
 		case 0:
 			pulled = "!"
